@@ -135,24 +135,21 @@ def rule_gram_reg(ctx: RuleContext, p: Program, rid: str) -> None:
                   f'parsing any text containing it raises KeyError', '', note=f'{token_rules[t].name if t in token_rules else None}')
     mb = p.cls('ModelBuilder', 'parser')
     bt = p.method(mb, '_build_tree', inherited=False)
-    handled: set[str] = set()
-    suffix_skip = False
-    for cmp_ in walk_no_nested(bt.node):
-        if isinstance(cmp_, ast.Compare) and isinstance(cmp_.ops[0], ast.In) and isinstance(cmp_.comparators[0], ast.Tuple):
-            handled |= {e.value for e in cmp_.comparators[0].elts if isinstance(e, ast.Constant)}
-        if isinstance(cmp_, ast.Call) and isinstance(cmp_.func, ast.Attribute) and cmp_.func.attr == 'endswith' \
-                and cmp_.args and isinstance(cmp_.args[0], ast.Constant) and cmp_.args[0].value == '_':
-            suffix_skip = True
+    # which rule names _build_tree copes with (a Repeated, an indent, dropped by its `_` suffix ...) is decided by interpreting it on a tree that has a
+    # sub-tree of that name as its only child (TREE-SEM's interpreter): an unhandled name fails with the KeyError of the model table
+    from . import treesem as _treesem
+    cand = sorted({r.split('{')[0] for r in tree_names if not r.startswith('__')} - set(tree_rules))
+    unhandled = _treesem.unhandled_tree_names(p, cand, set(tree_rules))
     for r in sorted(tree_names):
         if r.startswith('__'):
             continue
         base = r.split('{')[0]
         n += 1
         expand1 = all(rr.options and rr.options.expand1 for rr in g.rules if str(rr.origin.name) == r)
-        ok = base in tree_rules or base in handled or (suffix_skip and base.endswith('_')) or expand1
+        ok = base in tree_rules or base not in unhandled or expand1
         ctx.check(ok, rid, f'rule {r}', 'registered tree model / handled by name',
                   f'grammar rule {r} can appear as tree.data but is neither a registered tree model nor handled in _build_tree', bt.where,
-                  note='tree model' if base in tree_rules else 'handled by name' if base in handled else 'skipped (_ suffix)' if base.endswith('_') else 'inlined (?rule)',
+                  note='tree model' if base in tree_rules else 'handled by _build_tree (interpreted)' if base not in unhandled else 'inlined (?rule)',
                   nontrivial=base in tree_rules)
     if n < 60:
         raise AnalysisError(f'GRAM-REG: only {n} grammar symbols checked')
